@@ -102,12 +102,26 @@ func (r *pkgRun) fail(prop, kind string, di int, op, expected, observed, model, 
 			path = "stream"
 		}
 		class = strings.TrimPrefix(class+" resource:"+kind+":"+path, " ")
-		// the listed run-aways have ONE cause: a count on the wire that is believed although the input cannot hold
-		// that many elements. The model declines exactly those inputs ("fuel": a loop over more than 65536 elements
-		// that consume nothing); a stream decode that hangs on an input the model gets through is something else.
-		if kind == "timeout" && path == "stream" && r.mdl != nil {
+		// the listed resource findings have ONE cause: a count or length on the wire that is believed although the
+		// input cannot hold that many elements -- the decoders allocate for it (out of memory, or far too much) or
+		// loop over it (elements that take no bytes, or a stream that has run dry). Anything else is something else:
+		//  * a crash that is not the runtime's out-of-memory report (stack overflow, a fatal error, a signal);
+		//  * a hang on an input that the model gets through: the model declines exactly the inputs with a
+		//    run-away count ("fuel": a loop over more than 65536 elements that consume nothing).
+		if kind == "crash" && !strings.Contains(observed, "out_of_memory") {
+			class += ":not-out-of-memory"
+		}
+		if kind == "timeout" && r.mdl != nil {
 			if t := strings.Fields(op); len(t) >= 3 {
-				if md, err := r.mdl.Do(fmt.Sprintf("decs %s %s", t[1], t[len(t)-1])); err == nil && md.Class != "fuel" {
+				mop := fmt.Sprintf("decs %s %s", t[1], t[len(t)-1])
+				if path == "slice" {
+					safe := "1"
+					if strings.HasPrefix(t[0], "must") {
+						safe = "0"
+					}
+					mop = fmt.Sprintf("dec %s %s %s", safe, t[1], t[len(t)-1])
+				}
+				if md, err := r.mdl.Do(mop); err == nil && md.Class != "fuel" {
 					class += ":not-a-runaway-count"
 				}
 			}
@@ -411,6 +425,11 @@ func (r *pkgRun) evalValue(di, round int) {
 						outcome = "fail"
 						r.fail("C02", "oracle", di, op, hexB, head, "", "MarshalBebopTo and MarshalBebop differ")
 					}
+					// C03 is about every encoder: what MarshalBebopTo leaves in a buffer with arbitrary prior contents
+					// must be the reference encoding too
+					if haveModelEnc && head != mHex && r.on("C03") {
+						r.fail("C03", "mismatch", di, op, mHex, head, "", "MarshalBebopTo's bytes differ from the reference encoding")
+					}
 				} else if fi == 0 && extra == 7 {
 					if p, _ := r.conformant("C02", di, head, want); p != "" {
 						outcome = "fail"
@@ -445,6 +464,9 @@ func (r *pkgRun) evalValue(di, round int) {
 			} else if !multi && re.Fields[0] != hexB {
 				outcome = "fail"
 				r.fail("C02", "oracle", di, opEnc, hexB, re.Fields[0], "", "EncodeBebop and MarshalBebop differ")
+				if haveModelEnc && re.Fields[0] != mHex && r.on("C03") {
+					r.fail("C03", "mismatch", di, opEnc, mHex, re.Fields[0], "", "EncodeBebop's bytes differ from the reference encoding")
+				}
 			} else if multi {
 				if p, _ := r.conformant("C02", di, re.Fields[0], want); p != "" {
 					outcome = "fail"
@@ -484,9 +506,6 @@ func (r *pkgRun) evalValue(di, round int) {
 					continue
 				}
 				ref := mp.Fields[0]
-				if ref == hexB && r.on("C01") {
-					continue // the same bytes are decoded under C01
-				}
 				for _, op := range []string{fmt.Sprintf("unmarshal %d %s", di, ref), fmt.Sprintf("decode %d all %s", di, ref)} {
 					rd := r.real(op)
 					if r.badReal("C03", di, op, rd, false) {
